@@ -69,6 +69,10 @@ def cases(tier, seed):
         for Nin in thin:
             for Nout in thin:
                 yield {'op': 'reshape_walk', 'Nin': Nin, 'Nout': Nout, 'R': _minimal_ranks(Nin, 3), 'dt': 'f64', 's': salt}
+        for Nin in thin[::2]:
+            for Nout in thin[::2]:
+                for sc in (1e-3, 1e3):
+                    yield {'op': 'reshape_walk', 'Nin': Nin, 'Nout': Nout, 'R': _minimal_ranks(Nin, 3), 'dt': 'f64', 's': salt, 'scale': sc}
     # operators: pairs of (M,N) factorisation pairs
     ocounts = [4, 6] if quick else [4, 6, 8, 12]
     for cm in ocounts:
@@ -116,11 +120,29 @@ def cases(tier, seed):
                         yield {'op': 'permute', 'N': N, 'perm': list(perm), 'R': R, 'dt': dt, 'eps': 'default', 's': salt}
                 if d <= 4 or (d == 5 and N == sizes[0]):
                     yield {'op': 'permute_walk', 'N': N, 'perm': list(perm), 'R': _minimal_ranks(N, 3), 'dt': 'f64', 's': salt}
+                    if d <= 4 and N == sizes[0]:
+                        for sc in (1e-3, 1e3):
+                            yield {'op': 'permute_walk', 'N': N, 'perm': list(perm), 'R': _minimal_ranks(N, 3), 'dt': 'f64', 's': salt, 'scale': sc}
     for d in range(1, 4 if quick else 5):
         PM, PN = (2, 3, 2, 2), (3, 2, 2, 3)
         for perm in itertools.permutations(range(d)):
             for dt in ('f64', 'c128'):
                 yield {'op': 'permute_ttm', 'M': list(PM[:d]), 'N': list(PN[:d]), 'perm': list(perm), 'dt': dt, 's': salt}
+    # tight eps on operands with spectrum content far below 1e-10 (a + 1e-11 * b): roundoff only is promised at the default eps
+    for cnt in (8, 12) if quick else (8, 12, 16, 24):
+        shp = _shapes(cnt, 0, 4)
+        for Nin in shp:
+            if len(Nin) < 2:
+                continue
+            for Nout in shp:
+                for eps in ('default', 1e-14):
+                    yield {'op': 'reshape_tail', 'Nin': Nin, 'Nout': Nout, 'eps': eps, 'dt': 'f64', 's': salt}
+    for N in ([2, 3, 4], [3, 2, 2, 3]):
+        for perm in itertools.permutations(range(len(N))):
+            yield {'op': 'permute_tail', 'N': N, 'perm': list(perm), 'dt': 'f64', 's': salt}
+    # qtt_to_tens with every contiguous regrouping of the QTT modes (singleton cores inside, at the start or end of a group)
+    for N in ([4, 1, 8], [1, 4, 2], [2, 4, 1], [4, 1, 1, 4], [8, 2], [1, 8]) + (() if quick else ([2, 1, 4, 1, 2], [16, 1, 4])):
+        yield {'op': 'qtt_regroup', 'N': list(N), 'R': _minimal_ranks(list(N), 2), 'dt': 'f64', 's': salt}
     # QTT
     modes = (1, 2, 4, 8) if quick else (1, 2, 4, 8, 16)
     for d in range(1, 4):
@@ -244,6 +266,16 @@ def _walk_generic(c, x, X, want, site, fn, C, Nout_meta, key0):
                    extra={'walk_runs': st['runs'], 'walk_breakpoints': st['breakpoints'], 'exact_ties_hit': st['ties_hit'], 'cap_hit': st['cap_hit']})
 
 
+def _scaled(x, c):
+    """operands whose norm is far from 1 (an absolute instead of a relative truncation threshold shows)"""
+    sc = c.get('scale')
+    if not sc:
+        return x
+    cores = [cc.clone() for cc in x.cores]
+    cores[0] = cores[0] * sc
+    return torchtt.TT(cores)
+
+
 def _decay_tt(N, R, dt, salt):
     """TT with decaying unfolding spectra: TT-SVD of the 'decay' dense family, then padded to ranks R by the library is not
     needed - the TT-SVD output already has the ranks the spectrum supports"""
@@ -257,8 +289,9 @@ def _reshape_walk(c, dtype, u):
         x, _ = build(space.tensor_struct(Nin, [1, 1], c['dt'], 'gauss'), 'a', c['s'])
     else:
         x, _ = _decay_tt(Nin, c['R'], c['dt'], c['s'])
+    x = _scaled(x, c)
     X = ref.contract(x.cores)
-    key0 = 'reshape_walk|%s|%s' % (Nin, Nout)
+    key0 = 'reshape_walk|%s|%s|%s' % (Nin, Nout, c.get('scale'))
     return _walk_generic(c, x, X, X.reshape(Nout), 'reshape.tensor', lambda eps: torchtt.reshape(x, list(Nout), eps), 5, (False, [], Nout), key0)
 
 
@@ -304,10 +337,107 @@ def _permute_walk(c, dtype, u):
         x, _ = build(space.tensor_struct(N, [1, 1], c['dt'], 'gauss'), 'a', c['s'])
     else:
         x, _ = _decay_tt(N, c['R'], c['dt'], c['s'])
+    x = _scaled(x, c)
     X = ref.contract(x.cores)
-    key0 = 'permute_walk|%s|%s' % (N, perm)
+    key0 = 'permute_walk|%s|%s|%s' % (N, perm, c.get('scale'))
     return _walk_generic(c, x, X, X.permute(perm), 'permute.tensor', lambda eps: torchtt.permute(x, list(perm), eps), 5,
                          (False, [], [N[i] for i in perm]), key0)
+
+
+def _tail_tt(N, dt, salt):
+    d = len(N)
+    a, _ = build(space.tensor_struct(N, _minimal_ranks(N, 2), dt, 'gauss'), 'a', salt)
+    b, _ = build(space.tensor_struct(N, _minimal_ranks(N, 2), dt, 'gauss'), 'b', salt)
+    nb = float(b.norm())
+    na = float(a.norm())
+    return a + b * (1e-11 * na / max(nb, 1e-300))
+
+
+def _reshape_tail(c, dtype, u):
+    Nin, Nout = c['Nin'], c['Nout']
+    x = _tail_tt(Nin, c['dt'], c['s'])
+    X = ref.contract(x.cores)
+    nX = float(torch.linalg.norm(X))
+    key = 'reshape_tail|%s|%s|%s' % (Nin, Nout, c['eps'])
+    site = 'reshape.tensor.tight_eps'
+    eps = 1e-16 if c['eps'] == 'default' else c['eps']
+    res, e = call((lambda: torchtt.reshape(x, list(Nout))) if c['eps'] == 'default' else (lambda: torchtt.reshape(x, list(Nout), eps)))
+    if e is not None:
+        return Outcome(key, True, 'raises', violations=[V(site + '.raises_' + exc_name(e), repr(e))])
+    viol = []
+    if _meta_check(res, site, False, [], Nout, viol):
+        got = ref.contract(res.cores)
+        err = float(torch.linalg.norm(got - X.reshape(Nout)))
+        tol = 5 * eps * nX + 1e3 * u * nX
+        if not (err <= tol):
+            viol.append(V(site + '.value', 'err/|x| = %.3e at eps %.1e: spectrum content below 1e-10 was dropped' % (err / nX, eps)))
+    return Outcome(key, True, 'R=%s' % (res.R if isinstance(res, TT) else '?'), violations=viol)
+
+
+def _permute_tail(c, dtype, u):
+    N, perm = c['N'], c['perm']
+    x = _tail_tt(N, c['dt'], c['s'])
+    X = ref.contract(x.cores)
+    nX = float(torch.linalg.norm(X))
+    key = 'permute_tail|%s|%s' % (N, perm)
+    site = 'permute.tensor.tight_eps'
+    eps = 1e-14
+    res, e = call(lambda: torchtt.permute(x, list(perm), eps))
+    if e is not None:
+        return Outcome(key, True, 'raises', violations=[V(site + '.raises_' + exc_name(e), repr(e))])
+    viol = []
+    if _meta_check(res, site, False, [], [N[i] for i in perm], viol):
+        got = ref.contract(res.cores)
+        err = float(torch.linalg.norm(got - X.permute(perm)))
+        if not (err <= 5 * eps * nX + 1e3 * u * nX):
+            viol.append(V(site + '.value', 'err/|x| = %.3e at eps %.1e' % (err / nX, eps)))
+    return Outcome(key, True, 'R=%s' % (res.R if isinstance(res, TT) else '?'), violations=viol)
+
+
+def _qtt_regroup(c, dtype, u):
+    N, R = c['N'], c['R']
+    st = space.tensor_struct(N, R, c['dt'], 'gauss')
+    x, cx = build(st, 'a', c['s'])
+    # make every singleton core carry a non-trivial factor, so that dropping one changes sign and scale
+    cores = [cc.clone() for cc in x.cores]
+    for k, n in enumerate(N):
+        if n == 1:
+            cores[k] = cores[k] * (-2.5)
+    x = torchtt.TT(cores)
+    X = ref.contract(x.cores)
+    nX = float(torch.linalg.norm(X))
+    q, e = call(x.to_qtt)
+    key0 = 'qtt_regroup|%s' % space.skey(st)
+    if e is not None:
+        return Outcome(key0, True, 'raises', violations=[V('to_qtt.tensor.raises_' + exc_name(e), repr(e))])
+    modes = list(q.N)
+    L = len(modes)
+    viol = {}
+    keys = []
+    n = 0
+    for cuts in itertools.product((0, 1), repeat=L - 1):
+        groups, cur = [], [modes[0]]
+        for m, cut in zip(modes[1:], cuts):
+            if cut:
+                groups.append(cur)
+                cur = [m]
+            else:
+                cur.append(m)
+        groups.append(cur)
+        target = [int(np.prod(g)) for g in groups]
+        n += 1
+        keys.append(key0 + '|' + str(target))
+        back, e = call(q.qtt_to_tens, list(target))
+        site = 'qtt_to_tens.regroup'
+        if e is not None:
+            viol.setdefault(site + '.raises_' + exc_name(e), 'QTT modes %s -> %s: %r' % (modes, target, e))
+            continue
+        vv = []
+        if _meta_check(back, site, False, [], target, vv):
+            _value_check(back, X.reshape(target), site, 1e-12, 6, nX, u, vv)
+        for t in vv:
+            viol.setdefault(t['cls'], 'QTT modes %s -> %s: %s' % (modes, target, t['detail']))
+    return Outcome(keys, True, 'groupings=%d' % n, transitions=n + 1, compared=n, violations=[V(k, v) for k, v in viol.items()])
 
 
 def _permute_ttm(c, dtype, u):
